@@ -1,3 +1,3 @@
 SPECIFICATION MCSpec
 CONSTANT MulUn8 <- BadMulUn8
-INVARIANTS MulUn8Lemma MulLemma UnormLemma DivLemma SqrtLemma Algebra Consistency RealSanity
+INVARIANTS MulUn8Lemma MulLemma UnormLemma DivLemma SqrtLemma Algebra Consistency EquivLemma RealSanity
